@@ -21,7 +21,7 @@ fn gen(seed: u64, idx: u64, _tier: Tier) -> Plan {
     s.log_level = Some(0);
     world_knobs(&mut rng, &mut plan, false);
     let sockets = 1 + rng.below(24) as u32;
-    let mut t = 1000;
+    let mut t = 6000;
     if idx % 4 == 3 {
         // full batches of maximum depth: many valid requests at once, with oversized nonces mixed in
         s.batch_size = 64;
